@@ -201,12 +201,16 @@ class Reaching:
         self.OUT: Dict[int, Set[Def]] = {n.id: set() for n in cfg.nodes}
         self.OUT[cfg.entry.id] = set(self.param_defs)
         preds: Dict[int, List[Tuple[int, str]]] = {n.id: [] for n in cfg.nodes}
+        live = cfg.reachable(cfg.entry.id, edge_filter=edge_filter)
+        self.live = live
         for a, outs in cfg.succ.items():
+            if a not in live:
+                continue
             for b, lab in outs:
                 if edge_filter and not edge_filter(cfg.nodes[a], cfg.nodes[b], lab):
                     continue
                 preds[b].append((a, lab))
-        work = [n.id for n in cfg.nodes]
+        work = [n.id for n in cfg.nodes if n.id in live]
         succs: Dict[int, List[int]] = {n.id: [] for n in cfg.nodes}
         for b, ps in preds.items():
             for a, _ in ps:
